@@ -109,7 +109,7 @@ package schema
 //@ axiom rank_lexBlockComment: rank(lexBlockComment) == 1
 //@ axiom rank_lexStringLiteral: rank(lexStringLiteral) == 1
 
-//@ func functype::func(*schema.lexer) schema.stateFn
+//@ func functype::schema.stateFn
 //@   requires wf(arg0) && pending(arg0) == 0
 //@   modifies arg0.pos, arg0.width, arg0.start, chanstate(arg0.items)
 //@   ensures wf(arg0)
@@ -121,23 +121,23 @@ package schema
 
 //@ func lexCode
 //@   props C12
-//@   like functype::func(*schema.lexer) schema.stateFn
+//@   like functype::schema.stateFn
 
 //@ func lexLineComment
 //@   props C12
-//@   like functype::func(*schema.lexer) schema.stateFn
+//@   like functype::schema.stateFn
 //@   loop 1 invariant wf(l) && pending(l) == 0 && l.pos >= old(l.pos) && sent(l.items) == old(sent(l.items)) && recvd(l.items) == old(recvd(l.items))
 //@   loop 1 decreases len(l.input) - l.pos
 
 //@ func lexBlockComment
 //@   props C12
-//@   like functype::func(*schema.lexer) schema.stateFn
+//@   like functype::schema.stateFn
 //@   loop 1 invariant wf(l) && pending(l) == 0 && l.pos >= old(l.pos) && sent(l.items) == old(sent(l.items)) && recvd(l.items) == old(recvd(l.items)) && (r == eof ==> l.pos >= len(l.input)) && r >= -1
 //@   loop 1 decreases 2 * (len(l.input) - l.pos) + (r == eof ? 0 : 1)
 
 //@ func lexStringLiteral
 //@   props C12
-//@   like functype::func(*schema.lexer) schema.stateFn
+//@   like functype::schema.stateFn
 //@   loop 1 invariant wf(l) && pending(l) == 0 && l.pos >= old(l.pos) && sent(l.items) == old(sent(l.items)) && recvd(l.items) == old(recvd(l.items))
 //@   loop 1 decreases len(l.input) - l.pos
 
